@@ -351,7 +351,7 @@ and step_of1 (st : string) : stepk =
   | ["AF"; n; u] -> SOp (OAddFunction (dec n, ufun_of u))
   | ["EE"; x] -> SOp (OEnableEnforce (b x)) | ["ES"; x] -> SOp (OEnableAutoSave (b x))
   | ["EB"; x] -> SOp (OEnableAutoBuild (b x)) | ["EN"; x] -> SOp (OEnableAutoNotify (b x))
-  | ["?e"; v] | ["?em"; v] -> SQuery (QEnforce (parse_vals v))
+  | ["?e"; v] | ["?em"; v] | ["?et"; v] -> SQuery (QEnforce (parse_vals v))
   | ["?ec"; k; v] -> SQuery (QEnforceCtx (dec k, parse_vals v))
   | ["?c4"; rk; pk; ek; mk; v] -> SCtx4 ((dec rk, dec pk, dec ek, dec mk), parse_vals v)
   | ["?gp"; sec; pt] -> SQuery (QGetPolicy (explode sec, dec pt))
